@@ -921,7 +921,9 @@ where
                         self.elem_format_code = Some(format_code);
 
                         // Account for offset
-                        let len = len - OFFSET_ARRAY8;
+                        let len = len
+                            .checked_sub(OFFSET_ARRAY8)
+                            .ok_or(Error::InvalidValue)?;
                         // let buf = self.reader.read_bytes(len)?;
 
                         visitor.visit_seq(ArrayAccess::new(self, len, count))
@@ -957,7 +959,9 @@ where
                         self.elem_format_code = Some(format_code);
 
                         // Account for offset
-                        let len = len - OFFSET_ARRAY32;
+                        let len = len
+                            .checked_sub(OFFSET_ARRAY32)
+                            .ok_or(Error::InvalidValue)?;
                         // let buf = self.reader.read_bytes(len)?;
 
                         visitor.visit_seq(ArrayAccess::new(self, len, count))
@@ -982,7 +986,9 @@ where
                     as usize;
 
                 // Account for offset
-                let len = len - OFFSET_LIST8;
+                let len = len
+                    .checked_sub(OFFSET_LIST8)
+                    .ok_or(Error::InvalidValue)?;
 
                 // Make sure there is no other element format code
                 self.elem_format_code = None;
@@ -1003,7 +1009,9 @@ where
                 }
 
                 // Account for offset
-                let len = len - OFFSET_LIST32;
+                let len = len
+                    .checked_sub(OFFSET_LIST32)
+                    .ok_or(Error::InvalidValue)?;
 
                 // Make sure there is no other element format code
                 self.elem_format_code = None;
@@ -1041,7 +1049,9 @@ where
                     as usize;
 
                 // Account for offset
-                let size = size - OFFSET_LIST8;
+                let size = size
+                    .checked_sub(OFFSET_LIST8)
+                    .ok_or(Error::InvalidValue)?;
 
                 // Make sure there is no other element format code
                 self.elem_format_code = None;
@@ -1054,7 +1064,9 @@ where
                 let count = u32::from_be_bytes(count_bytes) as usize;
 
                 // Account for offset
-                let size = size - OFFSET_LIST32;
+                let size = size
+                    .checked_sub(OFFSET_LIST32)
+                    .ok_or(Error::InvalidValue)?;
 
                 // Make sure there is no other element format code
                 self.elem_format_code = None;
@@ -1091,7 +1103,9 @@ where
                     as usize;
 
                 // Account for offset
-                let size = size - OFFSET_MAP8;
+                let size = size
+                    .checked_sub(OFFSET_MAP8)
+                    .ok_or(Error::InvalidValue)?;
 
                 (size, count)
             }
@@ -1110,7 +1124,9 @@ where
                 }
 
                 // Account for offset
-                let size = size - OFFSET_MAP32;
+                let size = size
+                    .checked_sub(OFFSET_MAP32)
+                    .ok_or(Error::InvalidValue)?;
 
                 (size, count)
             }
@@ -1582,7 +1598,8 @@ impl<'de, R: Read<'de>> de::MapAccess<'de> for MapAccess<'_, R> {
     where
         V: de::DeserializeSeed<'de>,
     {
-        self.count -= 1;
+        // A map with an odd count has a key without a value
+        self.count = self.count.checked_sub(1).ok_or(Error::InvalidValue)?;
         seed.deserialize(self.as_mut())
     }
 
@@ -1599,7 +1616,7 @@ impl<'de, R: Read<'de>> de::MapAccess<'de> for MapAccess<'_, R> {
             0 => Ok(None),
             _ => {
                 // AMQP map count includes both key and value
-                self.count -= 2;
+                self.count = self.count.checked_sub(2).ok_or(Error::InvalidValue)?;
                 let key = kseed.deserialize(self.as_mut())?;
                 let val = vseed.deserialize(self.as_mut())?;
                 Ok(Some((key, val)))
